@@ -214,6 +214,30 @@ def exhaustive_histories(depth):
         yield prefix + list(tail) + [("solve", 1), ("solve", 0)]
 
 
+def vars_agree(impl, model):
+    """per-variable records must agree; for the two decoded freshness flags (cached terms / ghost layer reflect the
+    current state) the implementation may be 'fresh' where the model says 'stale': two distinct BoundaryConditions
+    objects with equal content (e.g. both default no-flux) make a stale layer coincide with the recomputed one.
+    The converse (model fresh, implementation stale) is a mismatch."""
+    a, b = impl.split(), model.split()
+    if len(a) != len(b):
+        return False
+    for x, y in zip(a, b):
+        if x == y:
+            continue
+        (vi, fi), (vm, fm) = x.split(":"), y.split(":")
+        fi, fm = fi.split(","), fm.split(",")
+        if vi != vm or len(fi) != len(fm):
+            return False
+        for k, (p_, q_) in enumerate(zip(fi, fm)):
+            if p_ == q_:
+                continue
+            if k in (3, 4) and p_ == "1" and q_ == "0":
+                continue
+            return False
+    return True
+
+
 def corr_hist(rng, nrandom, depth, kinds=("cart1", "cart2", "cyl2", "sph1", "cart3")):
     rep = Report("hist")
     hists = []
@@ -248,7 +272,7 @@ def corr_hist(rng, nrandom, depth, kinds=("cart1", "cart2", "cyl2", "sph1", "car
             if viol is not None:
                 rep.bad("solve-differs-from-fresh", case, {"step": k, "op": op_to_str(op), **viol})
                 break
-            if out != mout or obs != mvars:
+            if out != mout or not vars_agree(obs, mvars):
                 rep.bad("hist-state", case, {"step": k, "op": op_to_str(op), "impl_out": out, "model_out": mout, "impl_vars": obs, "model_vars": mvars})
                 break
         if len(rep.samples) < 2:
